@@ -1,3 +1,5 @@
+#[cfg(feature = "verif")]
+use crate::verif::shim as tokio;
 use tokio::{runtime::Handle, time};
 use tracing::{debug, error};
 
@@ -105,6 +107,8 @@ impl Runtime {
     pub fn launch(self: &Arc<Self>, proc: &Arc<Process>) {
         debug!("scheduler::launch");
         let proc = proc.clone();
+        #[cfg(feature = "verif")]
+        crate::verif::note("launch", proc.id(), "");
         tokio::spawn(async move {
             proc.start();
         });
@@ -145,6 +149,8 @@ impl Runtime {
     pub fn event_loop(self: &Arc<Self>) {
         let scher = self.scher.clone();
         let cache = self.cache.clone();
+        #[cfg(feature = "verif")]
+        crate::verif::note("loop", "", "");
         tokio::spawn(async move {
             loop {
                 let ret = scher.next().await;
@@ -281,6 +287,8 @@ impl Runtime {
             });
 
             let evt = self.emitter().clone();
+            #[cfg(feature = "verif")]
+            crate::verif::note("timer", "", "");
             Handle::current().spawn(async move {
                 let mut intv =
                     time::interval(Duration::from_millis(default_interval_millis as u64));
@@ -315,6 +323,8 @@ impl Runtime {
 
         let action = Action::new(pid, tid, event, &vars);
         let scher = self.clone();
+        #[cfg(feature = "verif")]
+        crate::verif::note("return", pid, tid);
         tokio::spawn(async move {
             let _ = scher
                 .do_action(&action)
